@@ -797,3 +797,6 @@ func (fi *FuncInfo) PathFileName(v ssa.Value) string {
 func ConvTermKey(typ string, x *Term) string {
 	return (&Term{K: KConv, S: typ, A: []*Term{x}}).Key()
 }
+
+// ContentAt returns the term of the value held by local al just before instruction at.
+func (fi *FuncInfo) ContentAt(al *ssa.Alloc, at ssa.Instruction) *Term { return fi.contentTerm(al, at) }
